@@ -37,6 +37,7 @@ PROPS = {
         "undecided": ["nothing beyond binascii.crc_hqx itself; payload lengths are covered by per-byte induction"],
     },
     "C04": {
+        "exhaustive": True,  # every rule of C04 enumerates its finite domain completely (8x8x2 cases, 6 classes x 2 states, 256 codes)
         "level": _L.format(what="complete per-frame transfer function of the receiver (8x8x2 cases), dispatch table "
                                 "for the six frame classes, RSTACK restart, confined writers of the expected number"),
         "undecided": ["nothing beyond the trusted base (sequences follow by induction on the per-frame function)"],
@@ -115,6 +116,7 @@ PROPS = {
         "undecided": ["event orders as executed schedules; timeouts in time"],
     },
     "C18": {
+        "exhaustive": True,  # both 8-bit families completely, every unified member
         "level": _L.format(what="resolved status enums and SL_STATUS_MAP, shape of from_ember_status, exhaustive "
                                 "evaluation over all 256 values of both 8-bit families and all unified members"),
         "undecided": [],
